@@ -25,7 +25,8 @@ CONSTANTS Ver,        \* "1.0" | "1.1"
 ------------------------------------------------------------------------------
 (* What a leaf matches.  "m" is a member of the substitution group headed by  *)
 (* the global element "a"; "o" is an element of a foreign namespace.          *)
-Members(h) == IF h = "a" THEN {"a", "m"} ELSE {h}
+(* "f" is a second head whose only other member is the FOREIGN element "o"    *)
+Members(h) == IF h = "a" THEN {"a", "m"} ELSE IF h = "f" THEN {"f", "o"} ELSE {h}
 WildDen(c) == CASE c = "any"   -> Syms
                 [] c = "other" -> Syms \cap {"o"}
                 [] c = "tns"   -> Syms \ {"o"}
@@ -259,6 +260,14 @@ VarLeaves(z) == {<<k[1], k[2], o[1], o[2]>> :
                         <<"w", "any">>, <<"w", "other">>, <<"w", "tns">>},
                 o \in {<<1, 1>>, <<0, 1>>, <<0, Inf>>}}
 LeafVarSet(z) == GroupsOver(VarLeaves(z), {"s", "c"}, OccSmall)
+(* ... plus the head f with a member in the foreign namespace: the groups that use it *)
+FLeaves(z) == {<<"h", "f", o[1], o[2]>> : o \in {<<1, 1>>, <<0, 1>>, <<0, Inf>>}}
+LeafVarFSet(z) == {g \in GroupsOver(VarLeaves(z) \cup FLeaves(z), {"s", "c"}, OccSmall) :
+                      \E i \in DOMAIN g[2] : g[2][i][1] = "h" /\ g[2][i][2] = "f"}
+(* three particles: leaf, inner group, leaf (what lies BETWEEN two competing particles matters) *)
+Mid3Set(z) == LET lv == ElemLeaves({"a", "b"}, {<<1, 1>>, <<0, 1>>, <<0, Inf>>})
+                  inner == GroupsOver(ElemLeaves({"a", "b"}, {<<1, 1>>, <<0, 1>>}), {"s", "c"}, {<<1, 1>>, <<0, 1>>})
+              IN {<<"s", <<x, g, y>>, o[1], o[2]>> : x \in lv, g \in inner, y \in lv, o \in {<<1, 1>>, <<1, Inf>>}}
 
 (* typed leaves for Element Declarations Consistent *)
 TypedSet(z) == GroupsOver({<<"e", n, o[1], o[2], t>> : n \in {"a", "b"}, o \in {<<1, 1>>, <<0, 1>>},
@@ -274,6 +283,8 @@ Family(name) == CASE name = "Depth1"  -> Depth1Set(0)
                   [] name = "All11"   -> All11Set(0)
                   [] name = "AllQ"    -> AllQSet(0)
                   [] name = "LeafVar" -> LeafVarSet(0)
+                  [] name = "LeafVarF" -> LeafVarFSet(0)
+                  [] name = "Mid3"    -> Mid3Set(0)
                   [] name = "Typed"   -> TypedSet(0)
 
 ------------------------------------------------------------------------------
